@@ -86,11 +86,15 @@ fn small_ods() -> Vec<u8> {
         ods::ORow { cells: vec![(ods::OCell::empty(), 1), (fc, 1), (ods::OCell::new(ods::OVal::Bool(true)), 1), (ods::OCell::new(ods::OVal::Date("2021-01-01".into())), 1)], repeat: 2 },
         ods::ORow { cells: vec![(ods::OCell::empty(), 1024)], repeat: 1_048_571 },
     ];
-    ods::write(&ods::OBook { sheets: vec![ods::OSheet { name: "S1".into(), rows, display: Some(false) }, ods::OSheet { name: "S2".into(), rows: vec![ods::ORow { cells: vec![(f("1"), 1)], repeat: 1 }], display: None }], named: vec![("n".into(), Some("$S1.$A$1".into()), None)], ..Default::default() }, Method::Deflated)
+    ods::write(&ods::OBook { sheets: vec![ods::OSheet { name: "S1".into(), rows, display: Some(false) }, ods::OSheet { name: "S2".into(), rows: vec![ods::ORow { cells: vec![(f("1"), 1)], repeat: 1 }], display: None },
+        // a used block that does not start in column A, with a blank row between its rows
+        ods::OSheet { name: "S3".into(), rows: vec![ods::ORow { cells: vec![(ods::OCell::empty(), 7), (f("1"), 1)], repeat: 1 }, ods::ORow { cells: vec![(ods::OCell::empty(), 1)], repeat: 1 }, ods::ORow { cells: vec![(ods::OCell::empty(), 7), (f("2"), 1)], repeat: 1 }], display: None }], named: vec![("n".into(), Some("$S1.$A$1".into()), None)], ..Default::default() }, Method::Deflated)
 }
 
 fn vproject() -> VProject {
-    VProject { codepage: 1252, modules: vec![VModule { name: "Module1".into(), stream_name: "Module1".into(), source: b"Sub A()\r\n  x = 1\r\n  x = 1\r\nEnd Sub\r\n".to_vec(), text_offset: 3, mode: 0, class_module: false, read_only: true, private: false }],
+    VProject { codepage: 1252, modules: vec![VModule { name: "Module1".into(), stream_name: "Module1".into(), source: b"Sub A()\r\n  x = 1\r\n  x = 1\r\nEnd Sub\r\n".to_vec(), text_offset: 3, mode: 0, class_module: false, read_only: true, private: false },
+        // a second module whose 4100 bytes do not compress: its container starts with a raw chunk
+        VModule { name: "Blob".into(), stream_name: "Blob".into(), source: { let mut x = 0x2545F491u32; (0..4100).map(|_| { x ^= x << 13; x ^= x >> 17; x ^= x << 5; 0x21 + (x % 90) as u8 }).collect() }, text_offset: 0, mode: 2, class_module: false, read_only: false, private: false }],
         refs: vec![VRef { name: "stdole".into(), kind: RefKind::Registered }, VRef { name: "MSForms".into(), kind: RefKind::Control { original: true, extended_name: true } }, VRef { name: "Other".into(), kind: RefKind::Project }], compat_version: true, descriptive: false }
 }
 
@@ -338,6 +342,22 @@ pub fn worker(args: &[String]) -> i32 {
     0
 }
 
+/// `cvx c06-baseline <tier> <seed index>`: the seed file as generated, without any fault, through every entry point.
+/// Exit 0 = read without panic / blow-up; a panic prints its site and exits 3; an allocation blow-up exits 86.
+pub fn baseline(args: &[String]) -> i32 {
+    let thorough = args[0] == "thorough";
+    let k: usize = args[1].parse().unwrap();
+    let sd = seeds(thorough);
+    let Some(seed) = sd.get(k) else { return 2 };
+    alloc::set_report_fd(2);
+    alloc::init_exe_base();
+    let limit = (64usize << 20).max(4096 * seed.file.len());
+    alloc::arm(limit, 4i64 << 30, usize::MAX - 1);
+    let r = guarded(|| exercise(seed.fmt, &seed.file, u64::MAX - 1));
+    alloc::disarm();
+    match r { Ok(()) => 0, Err(p) => { println!("{}", p.replace('\n', " ")); 3 } }
+}
+
 // ------------------------------------------------------------------------------------------------
 // coordinator
 
@@ -374,10 +394,35 @@ fn message_class(m: &str) -> &'static str {
 
 pub fn check(rep: &Report) {
     let t = crate::thorough(&rep.tier);
-    rep.rule("seeds = generated workbooks (quick: a small xlsx, xlsb, ods, xls and an xls with a VBA project; thorough: + the feature-rich C07 workbooks and a v4 container); fault targets = every zip member after inflation (re-zipped with valid CRC), the raw zip bytes, the BIFF8 Workbook stream (re-wrapped in a valid compound file), the raw compound-file bytes (header, FAT, directory, mini stream), the decompressed VBA dir stream (re-compressed) and a compressed module stream; faults = at every byte offset {truncate here, =0x00, =0xFF, ^0x01, ^0x80, +1, -1, u16=0xFFFF/0x7FFF, u32=0xFFFFFFFF/0x7FFFFFFF/0x80000000, delete byte, duplicate byte} (text parts: 8 of them, plus every decimal number replaced by {0, 99999999, 4294967295, 2^64} and every cell reference by XFD1048576), every member deleted; thorough: + all pairs of 5 field-sized overwrite combinations inside the first 160 bytes of every binary target; every case runs new(), ranges (default and header row 2), formulas, worksheets(), metadata, vba_project + modules, merge cells / tables / range_ref, and auto-detection, in a worker process with a panic hook (overflow checks on), an allocator that refuses a single request above max(64 MiB, 4096 x input length) or 4 GiB live, and a 10 s no-progress watchdog; non-trivial = the faulted file differs from the seed; distinct by (seed, target, fault)");
+    rep.rule("baseline = every seed workbook unfaulted through every entry point (no panic / blow-up / stall, independent of the known-findings list); seeds = generated workbooks (quick: a small xlsx, xlsb, ods, xls and an xls with a VBA project; thorough: + the feature-rich C07 workbooks and a v4 container); fault targets = every zip member after inflation (re-zipped with valid CRC), the raw zip bytes, the BIFF8 Workbook stream (re-wrapped in a valid compound file), the raw compound-file bytes (header, FAT, directory, mini stream), the decompressed VBA dir stream (re-compressed) and a compressed module stream; faults = at every byte offset {truncate here, =0x00, =0xFF, ^0x01, ^0x80, +1, -1, u16=0xFFFF/0x7FFF, u32=0xFFFFFFFF/0x7FFFFFFF/0x80000000, delete byte, duplicate byte} (text parts: 8 of them, plus every decimal number replaced by {0, 99999999, 4294967295, 2^64} and every cell reference by XFD1048576), every member deleted; thorough: + all pairs of 5 field-sized overwrite combinations inside the first 160 bytes of every binary target; every case runs new(), ranges (default and header row 2), formulas, worksheets(), metadata, vba_project + modules, merge cells / tables / range_ref, and auto-detection, in a worker process with a panic hook (overflow checks on), an allocator that refuses a single request above max(64 MiB, 4096 x input length) or 4 GiB live, and a 10 s no-progress watchdog; non-trivial = the faulted file differs from the seed; distinct by (seed, target, fault)");
     rep.assume("'time proportional to the input' is checked as 'no case stalls for 10 s' (cases take well under 10 ms); 'memory out of proportion' as the allocator thresholds; random multi-fault combinations beyond the enumerated pairs are not covered");
     rep.max_keys.store(2000, std::sync::atomic::Ordering::Relaxed);
     let sd = seeds(t);
+    // the seed files themselves are well-formed workbooks: whatever the faulted copies do, the originals must read without any
+    // panic, blow-up or stall (this is not subject to the known-findings list, which names sites reached by faulted input)
+    let exe0 = std::env::current_exe().unwrap();
+    for (k, seed) in sd.iter().enumerate() {
+        rep.eval(1);
+        let mut cmd = std::process::Command::new(&exe0);
+        cmd.args(["c06-baseline", &rep.tier, &k.to_string()]).env_remove("VERIF_CRUMBS").stdout(std::process::Stdio::piped()).stderr(std::process::Stdio::null());
+        unsafe { use std::os::unix::process::CommandExt; cmd.pre_exec(|| { libc::prctl(libc::PR_SET_PDEATHSIG, libc::SIGKILL); Ok(()) }); }
+        let Ok(mut child) = cmd.spawn() else { continue };
+        let started = std::time::Instant::now();
+        let status = loop {
+            match child.try_wait() { Ok(Some(st)) => break Some(st), Ok(None) => {} Err(_) => break None }
+            if started.elapsed().as_secs() > 30 { let _ = child.kill(); let _ = child.wait(); break None; }
+            std::thread::sleep(std::time::Duration::from_millis(10));
+        };
+        let mut out = String::new();
+        if let Some(mut so) = child.stdout.take() { use std::io::Read; let _ = so.read_to_string(&mut out); }
+        let what = match status { None => Some("stalled for 30 s".to_string()), Some(st) if st.code() == Some(0) => None, Some(st) if st.code() == Some(3) => Some(format!("panicked: {}", out.trim())), Some(st) if st.code() == Some(86) => Some("allocation out of proportion".to_string()), Some(st) => Some(format!("worker ended with {st:?}")) };
+        let name = seed.name.clone(); let file = seed.file.clone(); let fmt = seed.fmt;
+        rep.case(hash_of(&("baseline", &name)), false, hash_of(&what));
+        if let Some(w) = what {
+            let site = if w.starts_with("panicked") { normalise_site(w.rsplit(" @ ").next().unwrap_or("")) } else { w.chars().take(24).collect() };
+            rep.fail(&format!("well-formed-seed/{name}/{site}"), &format!("the unfaulted seed workbook {name}: {w}"), || Replay { json: json!({"seed": name, "fault": "none", "format": fmt}), files: vec![(fmt.to_string(), file.clone())] });
+        }
+    }
     let cases = enumerate(&sd, t);
     let n = cases.len();
     let dir = format!("{}/target/run/c06-{}", crate::verif_root(), std::process::id());
